@@ -416,6 +416,14 @@ class BaseParser:
             )
         return result
 
+    @classmethod
+    def _values_differ(cls, a, b) -> bool:
+        # input values are arbitrary objects: a comparison that fails means they are not known to be the same
+        try:
+            return bool(a != b)
+        except Exception:  # noqa
+            return True
+
     def parse_addition(self, key: str, value, context: RuntimeContext):
         if key in self.exclude_vars:
             # excluded vars cannot be carry in addition even if allowed
@@ -499,7 +507,7 @@ class BaseParser:
                             value = values[alias]
                             if options.ignore_alias_conflicts:
                                 break
-                        elif values[alias] != value:
+                        elif self._values_differ(values[alias], value):
                             context.handle_error(exc.AliasConflictError(item=name, value=values[alias]))
                             break
 
@@ -600,7 +608,7 @@ class BaseParser:
                         if unprovided(value):
                             value = data[alias]
                         else:
-                            if data[alias] != value:
+                            if self._values_differ(data[alias], value):
                                 context.handle_error(exc.AliasConflictError(item=name, value=data[alias]))
                                 break
 
